@@ -44,8 +44,23 @@ def run(ctx):
         return (sorted(seq), [x for x in seq if x in ("set_time", "process_event")])
     ctx.check(canon(a) == canon(b), "siblings", "step", ctx.loc(shapes["MarketEnv"].f), "Env::step and MarketEnv::step drive their book/market through the same call sequence %s" % a,
               "Env::step does %s but MarketEnv::step does %s" % (a, b))
+    dispatch_rules(ctx, m)
+    # submission functions
+    submission_rules(ctx, m, (("Env", m.env_fn, "order_book"), ("MarketEnv", m.menv_fn, "market")))
+    # a queued instruction reaches the addressed book unchanged: Market::{place,cancel,modify}_order forward unconditionally
+    from .c14 import per_asset_rules
+    per_asset_rules(ctx, m, names=("place_order", "cancel_order", "modify_order"), RULE="market-forward")
+    ctx.assume("batch sizes up to the step size (beyond that intra-step times run into the next step; C05's stamp rule keeps queue order)")
+    ctx.note("the permutation applied to the batch is rand's shuffle: C15")
+
+
+def dispatch_rules(ctx, m, owners=("OrderBook", "Market")):
+    """process_event hands every instruction to the direct method of its kind, once, unconditionally, fields bound by name
+    (shared with C06 / C14: an instruction delivered as an event behaves exactly like the direct call)"""
     # process_event dispatch
     for owner, f in (("OrderBook", m.book_fn("process_event")), ("Market", m.market_fn("process_event"))):
+        if owner not in owners:
+            continue
         q = m.q(f)
         want = {"New": ("place_order", ["order_id"]), "Cancellation": ("cancel_order", ["order_id"]), "Modify": ("modify_order", ["order_id", "new_price", "new_vol"])}
         calls = [c for c in q.calls() if c.target is not None]
@@ -100,13 +115,6 @@ def run(ctx):
             ctx.check(ok, "dispatch", "%s|%s" % (owner, v), c.loc(), "%s -> %s(%s) with fields bound by name" % (v, name, ", ".join(fields)),
                       "%s arm calls %s" % (v, c.text()))
         ctx.check(seen == set(want), "dispatch", owner + "|exhaustive", ctx.loc(f), "all three instruction kinds are dispatched", "only %s dispatched" % sorted(seen))
-    # submission functions
-    submission_rules(ctx, m, (("Env", m.env_fn, "order_book"), ("MarketEnv", m.menv_fn, "market")))
-    # a queued instruction reaches the addressed book unchanged: Market::{place,cancel,modify}_order forward unconditionally
-    from .c14 import per_asset_rules
-    per_asset_rules(ctx, m, names=("place_order", "cancel_order", "modify_order"), RULE="market-forward")
-    ctx.assume("batch sizes up to the step size (beyond that intra-step times run into the next step; C05's stamp rule keeps queue order)")
-    ctx.note("the permutation applied to the batch is rand's shuffle: C15")
 
 
 def submission_rules(ctx, m, owners):
